@@ -264,4 +264,77 @@ theorem copied_of_hex (h : Char) (a : Nat) (hh : hexVal h = some a) : copied h =
     simp only [copied, Bool.not_eq_false', Bool.or_eq_true, beq_iff_eq] at hc
     rcases hc with (rfl | rfl) | rfl <;> simp [hexVal] at hh
 
+/-! ### the scanner on arbitrary input -/
+
+theorem skipToBrace_split (cs : List Char) (i : Nat) (r : List Char) (j : Nat)
+    (h : skipToBrace cs i = some (r, j)) : ∃ mid, cs = mid ++ r ∧ j = i + utf8Len mid := by
+  induction cs generalizing i with
+  | nil => simp [skipToBrace] at h
+  | cons c cs ih =>
+    unfold skipToBrace at h
+    split at h
+    · simp only [Option.some.injEq, Prod.mk.injEq] at h
+      obtain ⟨rfl, rfl⟩ := h
+      exact ⟨[c], by simp, by simp [utf8Len]⟩
+    · obtain ⟨mid, h1, h2⟩ := ih _ h
+      exact ⟨c :: mid, by simp [h1], by simp [utf8Len, h2]; omega⟩
+
+theorem scan_offset (inp : List Char) (i : Nat) (k : Kind) (off : Nat)
+    (h : scan inp i = .found k off) :
+    ∃ pre suf, inp = pre ++ suf ∧ off = i + utf8Len pre ∧
+      (k = .stringEnd → ∃ t, suf = '"' :: t) := by
+  fun_induction scan inp i <;> try (simp_all; done)
+  case case5 c i _ c1 _ c2 cs2 _ r j hs _ ih =>
+    obtain ⟨pre, suf, h1, h2, h3⟩ := ih h
+    obtain ⟨mid, h4, h5⟩ := skipToBrace_split _ _ _ _ hs
+    refine ⟨c :: c1 :: c2 :: (mid ++ pre), suf, by simp [h4, h1], ?_, h3⟩
+    simp only [utf8Len, utf8Len_append]; omega
+  case case7 c i _ c1 cs1 _ ih =>
+    obtain ⟨pre, suf, h1, h2, h3⟩ := ih h
+    exact ⟨c :: c1 :: pre, suf, by simp [h1], by simp only [utf8Len]; omega, h3⟩
+  case case9 c i _ _ c1 cs1 _ ih =>
+    obtain ⟨pre, suf, h1, h2, h3⟩ := ih h
+    exact ⟨c :: c1 :: pre, suf, by simp [h1], by simp only [utf8Len]; omega, h3⟩
+  case case10 c i _ hb c1 cs1 _ =>
+    have hc : c = '{' := by simpa using hb
+    subst hc
+    have h1 : ('{' : Char).utf8Size = 1 := by decide
+    simp only [Scan.found.injEq, h1] at h
+    obtain ⟨rfl, rfl⟩ := h
+    exact ⟨[], _, rfl, by simp [utf8Len], by simp⟩
+  case case11 c cs i _ _ hq =>
+    have hc : c = '"' := by simpa using hq
+    subst hc
+    simp only [Scan.found.injEq] at h
+    obtain ⟨rfl, rfl⟩ := h
+    exact ⟨[], _, rfl, by simp [utf8Len], fun _ => ⟨cs, rfl⟩⟩
+  case case12 c cs i _ _ _ ih =>
+    obtain ⟨pre, suf, h1, h2, h3⟩ := ih h
+    exact ⟨c :: pre, suf, by simp [h1], by simp only [utf8Len]; omega, h3⟩
+
+/-- for EVERY input the scanner's byte offset is a character boundary -/
+theorem fStringPart_total (inp : List Char) :
+    fStringPart inp ≠ .panic ∧
+    ∀ k text rest, fStringPart inp = .part k text rest →
+      (k = .intermediate → inp = text ++ rest) ∧ (k = .stringEnd → inp = text ++ '"' :: rest) := by
+  unfold fStringPart
+  cases hs : scan inp 0 with
+  | none => simp
+  | found k off =>
+    obtain ⟨pre, suf, h1, h2, h3⟩ := scan_offset inp 0 k off hs
+    simp only [Nat.zero_add] at h2
+    subst h2
+    cases k with
+    | intermediate =>
+      simp only [h1, splitAtByte_prefix]
+      simp
+    | stringEnd =>
+      obtain ⟨t, rfl⟩ := h3 rfl
+      have hq : splitAtByte ('"' :: t) 1 = some (['"'], t) := by
+        have := splitAtByte_prefix ['"'] t
+        have h1 : ('"' : Char).utf8Size = 1 := by decide
+        simpa [utf8Len, h1] using this
+      simp only [h1, splitAtByte_prefix, hq]
+      simp
+
 end RotoV.FString
